@@ -2863,6 +2863,7 @@ fn k_srcslice(cx: &mut Ctx, drv: &mut Driver, rng: &mut Rng, n_random: usize) ->
 /// (hook H6, /repo f2634c9)
 fn k_layout(cx: &mut Ctx, drv: &mut Driver, progs: &[Prog], rng: &mut Rng, n_progs: usize) -> Value {
     let (mut n, mut bad, mut flat, mut skipped) = (0u64, 0u64, 0u64, 0u64);
+    let (mut nr, mut badr, mut multi) = (0u64, 0u64, 0u64);
     let grid = full_grid();
     for _ in 0..n_progs {
         if progs.is_empty() {
@@ -2878,14 +2879,34 @@ fn k_layout(cx: &mut Ctx, drv: &mut Driver, progs: &[Prog], rng: &mut Rng, n_pro
             let lines = koto_format::verif_trace::take();
             let mut reqs = vec![];
             let mut recs = vec![];
+            // hook format v2 (requests/C11-hook-2.diff) also carries what the group rendered
+            let mut rreqs = vec![];
+            let mut rrecs = vec![];
             for l in &lines {
-                let f: Vec<&str> = l.splitn(7, ' ').collect();
-                if f.len() != 7 {
-                    skipped += 1;
-                    continue;
+                if let Some(rest) = l.strip_prefix("v2 ") {
+                    // ll iw col indented measured too_long force last tree widths
+                    let f: Vec<&str> = rest.splitn(9, ' ').collect();
+                    if f.len() != 9 {
+                        skipped += 1;
+                        continue;
+                    }
+                    let Some((tree, widths)) = f[8].rsplit_once(' ') else {
+                        skipped += 1;
+                        continue;
+                    };
+                    reqs.push(format!("group {} {} {}", f[0], f[2], tree));
+                    recs.push(format!("{} {} {} {}", f[4], f[5], f[6], f[7]));
+                    rreqs.push(format!("render {} {} {} {} {}", f[0], f[1], f[2], f[3], tree));
+                    rrecs.push(widths.to_string());
+                } else {
+                    let f: Vec<&str> = l.splitn(7, ' ').collect();
+                    if f.len() != 7 {
+                        skipped += 1;
+                        continue;
+                    }
+                    reqs.push(format!("group {} {} {}", f[0], f[1], f[6]));
+                    recs.push(format!("{} {} {} {}", f[2], f[3], f[4], f[5]));
                 }
-                reqs.push(format!("group {} {} {}", f[0], f[1], f[6]));
-                recs.push(format!("{} {} {} {}", f[2], f[3], f[4], f[5]));
             }
             let resps = drv.batch(&reqs);
             for ((req, rec), resp) in reqs.iter().zip(recs.iter()).zip(resps.iter()) {
@@ -2907,9 +2928,28 @@ fn k_layout(cx: &mut Ctx, drv: &mut Driver, progs: &[Prog], rng: &mut Rng, n_pro
                     cx.rep.sample(json!({"kind": "K layout", "request": req, "impl": rec, "model": resp}));
                 }
             }
+            let rresps = drv.batch(&rreqs);
+            for ((req, rec), resp) in rreqs.iter().zip(rrecs.iter()).zip(rresps.iter()) {
+                nr += 1;
+                if rec.contains(',') {
+                    multi += 1;
+                }
+                if resp != rec {
+                    badr += 1;
+                    if badr <= 3 {
+                        cx.rep.violation("K", "K:C11:Model.Layout.renderItem", json!({"input": req, "program": p.src, "opt": o.text(),
+                            "impl_line_widths": rec, "model_line_widths": resp,
+                            "note": "model and implementation disagree on the text shape a group renders to; the theorems render_* / action_* of Props/C11.lean no longer speak about this code"}));
+                    }
+                }
+                if cx.rep.samples.len() < 8 && nr % 4001 == 11 && rec.contains(',') {
+                    cx.rep.sample(json!({"kind": "K render", "request": req, "impl": rec, "model": resp}));
+                }
+            }
         }
     }
-    json!({"layout_decisions": n, "layout_disagreements": bad, "single_line_decisions": flat, "unparsed_trace_lines": skipped})
+    json!({"layout_decisions": n, "layout_disagreements": bad, "single_line_decisions": flat, "unparsed_trace_lines": skipped,
+           "rendered_groups": nr, "rendered_multi_line": multi, "render_disagreements": badr})
 }
 
 fn main() {
